@@ -4,7 +4,7 @@ ENGINES = [
     {
         "name": "symx",
         "path": "/verif/symx",
-        "serves_properties": [],
+        "serves_properties": ["C07"],
         "kind_free_text": "own symbolic executor: geoh5py's real functions run under CPython with the module-global "
         "`np` (and, for file paths, `h5py`) rebound to z3-backed models; re-execution DFS forks on symbolic "
         "branches; obligations are z3 validity queries; counterexamples are replayed on real numpy/h5py",
@@ -24,7 +24,23 @@ NOTES = (
 )
 
 # property id -> dict(engine, level_text, level_note, technique, design_ref)
-CLAIMED = {}
+CLAIMED = {
+    "C07": {
+        "engine": "symx",
+        "technique": "bounded symbolic execution of the real remove_vertices/remove_cells/values-setter code on a "
+        "z3-backed numpy model; z3 validity queries per path; counterexamples replayed on real numpy",
+        "level_text": "bounded symbolic model checking: for every listed shape (n vertices, m cells, k removal indices, "
+        "value-array lengths) all paths of the real Points/CellObject.remove_vertices, remove_cells, "
+        "remove_children_values and NumericData.values setter are explored with symbolic coordinates, cell "
+        "indices, data values and removal indices, and z3 proves per path that survivors keep coordinates and "
+        "values, cells stay in range and connect the same coordinates, padding/refusal rules hold, and a failed "
+        "call leaves geometry and data consistent. Holds within the bounds only.",
+        "level_note": "trusted: the symx numpy model (validated on every run by replaying a model of each explored "
+        "path on real numpy and comparing outcome, obligations and observed arrays), floats as reals, seam A "
+        "(HDF5 write cut by an instance-level no-op), z3",
+        "design_ref": "DESIGN.md section 5, C07",
+    },
+}
 
 _NOT_BUILT = "check not built yet (planned, see DESIGN.md section 5)"
 
@@ -48,7 +64,6 @@ NOT_APPLICABLE = {
     "C03": _NOT_BUILT,
     "C04": _NOT_BUILT,
     "C06": _NOT_BUILT,
-    "C07": _NOT_BUILT,
     "C08": _NOT_BUILT,
     "C13": _NOT_BUILT,
     "C14": _NOT_BUILT,
